@@ -142,6 +142,14 @@ def _first_message(cfg):
     flags = PacketFlags.RELIABLE if cfg["rel"] else PacketFlags(0)
     if cfg["kind"] == "plain":
         return Message("CompletePingCheck", Block("PingID", PingID=1), packet_id=1, flags=flags, direction=d)
+    if cfg["kind"] == "badbody":
+        # run_scenario cuts the datagram inside the text field: the header stays valid, the body cannot be parsed
+        return Message("ImprovedInstantMessage",
+                       Block("AgentData", AgentID=UUID(int=3), SessionID=UUID(int=1)),
+                       Block("MessageBlock", FromGroup=False, ToAgentID=UUID(int=5), ParentEstateID=1, RegionID=UUID(int=6),
+                             Position=(1.0, 2.0, 3.0), Offline=0, Dialog=0, ID=UUID(int=7), Timestamp=0,
+                             FromAgentName="Someone", Message="a message that is cut off in the middle", BinaryBucket=b""),
+                       Block("EstateBlock", EstateID=1), packet_id=1, flags=flags, direction=d)
     if cfg["kind"] == "rlv":
         from hippolyzer.lib.base.datatypes import Vector3
         return Message("ChatFromSimulator",
@@ -186,7 +194,18 @@ def run_scenario(cfg):
             elif beh != "none":
                 mh.subscribe("*", sub(point, beh))
         m1 = _first_message(cfg)
-        exc = env.deliver(m1)
+        raw = None
+        if cfg["kind"] == "badbody":
+            from hippolyzer.lib.base.network.transport import UDPPacket
+            pkt = env.endpoint_packet(m1)
+            raw = pkt.data[:-30]
+            try:
+                env.protocol.handle_proxied_packet(UDPPacket(pkt.src_addr, pkt.dst_addr, raw, pkt.direction))
+                exc = None
+            except Exception as e:  # noqa
+                exc = type(e).__name__ + ": " + str(e)[:120]
+        else:
+            exc = env.deliver(m1)
         proxyenv.pump(loop, 2)
         out1 = env.transport.take()
         d = cfg["dir"]
@@ -194,8 +213,11 @@ def run_scenario(cfg):
         wire = copies = dropacks = 0
         mutated = False
         for p in out1:
-            m = env.deser.deserialize(p.data)
             pd = "OUT" if p.direction == Direction.OUT else "IN"
+            if raw is not None and bytes(p.data) == bytes(raw) and pd == d:
+                wire += 1       # forwarded untouched, byte for byte
+                continue
+            m = env.deser.deserialize(p.data)
             if m.name == m1.name and pd == d:
                 val = m["PingID"]["PingID"] if m.name == "CompletePingCheck" else str(m["ChatData"]["Message"])
                 if val in (101, "copy"):
@@ -323,11 +345,13 @@ def run(chk: Check):
     if chk.tier == "quick":
         _table(chk, 2, ["falsy", "truthy", "raise"], CORE_UDP, ["none", "raise", "take"], ["plain", "cmdchat"], "n2-core")
         _table(chk, 2, ["falsy", "raise"], ["falsy", "truthy", "drop"], ["none", "take", "drop", "send"], ["rlv"], "n2-rlv")
+        _table(chk, 2, ["falsy", "raise"], ["falsy", "truthy", "raise", "drop"], ["none", "falsy"], ["badbody"], "n2-badbody")
         _table(chk, 1, ["falsy"], ALL_UDP, ["none", "falsy", "raise", "predraise", "take", "takesend", "drop", "send"], ["plain"], "n1-all")
     else:
         _table(chk, 2, ["falsy", "truthy", "raise"], ALL_UDP, ["none", "raise", "predraise", "take", "takesend"], ["plain", "cmdchat"], "n2-all")
         _table(chk, 3, ["falsy", "truthy", "raise"], ["falsy", "truthy", "raise", "take", "drop", "send"], ["none", "take"], ["plain"], "n3-core")
         _table(chk, 2, ["falsy", "truthy", "raise"], ["falsy", "truthy", "raise", "take", "drop", "send"], ["none", "raise", "take", "drop", "send"], ["rlv"], "n2-rlv")
+        _table(chk, 2, ["falsy", "truthy", "raise"], ["falsy", "truthy", "raise", "drop", "send"], ["none", "falsy", "raise"], ["badbody"], "n2-badbody")
     chk.cov["exhaustive"] = True
 
 
